@@ -35,7 +35,7 @@ def run(tier):
     k = 0
     for p in range(1, maxp + 1):
         for c in range(0, 3 * p + 2):
-            for gt in (gts if tier == "thorough" else [gts[k % 4]]):
+            for gt in (gts if tier == "thorough" else [gts[k % len(gts)]]):
                 cases.append((p, c, gt))
                 k += 1
     if tier == "thorough":
